@@ -106,6 +106,11 @@ def check_pair(desc):
         if len(sg.model_dof_entities(g, sd["kind"], kw)) == 0:
             return {"nontrivial": False, "labels": ["skipped"]}
     vector = fam == "maxwell"
+    if vector and op == "E" and k is not None:
+        # the E relation is judged on a ladder of regular orders (not exactly): the wave must be resolvable by those orders, so the
+        # wavenumber is drawn as k D (D the larger grid diameter) - a 28-wavelength tetrahedron does not converge at orders <= 10
+        Dm = max(float(np.linalg.norm(gg.bounding_box[:, 1] - gg.bounding_box[:, 0])) for gg in (gt, gd))
+        k = k / Dm
     if vector and op == "E":
         # The electric-field *matrix* is the integrated-by-parts form (surface curl of the test function); it equals the tested potential
         # only for test functions without tangential trace on the boundary of their support (no boundary half-functions on an open
